@@ -174,4 +174,28 @@ theorem lt_two_pow_of_testBit (bits x : ℕ) (h : ∀ i, bits ≤ i → x.testBi
   rw [h i hi] at hb
   exact Bool.false_ne_true hb
 
+theorem and_two_pow_ne_zero (x k : ℕ) : (x &&& 2 ^ k != 0) = x.testBit k := by
+  cases h : x.testBit k
+  · have : x &&& 2 ^ k = 0 := by
+      apply Nat.eq_of_testBit_eq; intro j
+      rw [Nat.testBit_and, Nat.testBit_two_pow, Nat.zero_testBit]
+      by_cases hj : k = j
+      · subst hj; simp [h]
+      · simp [hj]
+    simp [this]
+  · have : (x &&& 2 ^ k).testBit k = true := by
+      rw [Nat.testBit_and, Nat.testBit_two_pow]; simp [h]
+    have hne : x &&& 2 ^ k ≠ 0 := by intro h0; rw [h0] at this; simp at this
+    simp [hne]
+
+theorem bit_spec (bits : ℕ) (a : List ℕ) (ha : AllLt a) (i : ℕ) :
+    bit bits a i = (decide (i < bits) && (val a).testBit i) := by
+  unfold bit
+  by_cases h : i ≥ bits
+  · have : ¬ i < bits := by omega
+    simp [h, this]
+  · have : i < bits := by omega
+    simp only [h, if_false, this, decide_true, Bool.true_and]
+    rw [and_two_pow_ne_zero, val_testBit a ha]
+
 end Ruint.Bits
